@@ -58,9 +58,10 @@ Zero == [a \in Attrs |-> 0]
 NoOut == <<0, "none", "none", Zero>>
 Loaded == [gen |-> disk.gen, attrs |-> disk.attrs, wino |-> 0]
 
-Init == /\ disk = [gen |-> 1, attrs |-> Zero, e |-> FALSE, x |-> TRUE, ino |-> 1, lk |-> TRUE]
+\* (the object starts with a generation number well above what a re-created file reaches: its creation stored it many times)
+Init == /\ disk = [gen |-> 10, attrs |-> Zero, e |-> FALSE, x |-> TRUE, ino |-> 1, lk |-> TRUE]
         /\ objW = 0 /\ txLock = 0
-        /\ cache = [p \in Procs |-> [gen |-> 1, attrs |-> Zero, wino |-> 0]]
+        /\ cache = [p \in Procs |-> [gen |-> 10, attrs |-> Zero, wino |-> 0]]
         /\ pc = [p \in Procs |-> "idle"] /\ kind = [p \in Procs |-> "none"]
         /\ has = [p \in Procs |-> TRUE] /\ blind = [p \in Procs |-> FALSE]
         /\ todo = [p \in Procs |-> NCalls] /\ done = [p \in Procs |-> 0]
